@@ -505,7 +505,22 @@ func TestVF_C09_Prepended(t *testing.T) {
 										continue
 									}
 									overlap := d >= a
-									for p := 0; p <= b; p++ {
+									// every witness position twice: with the update object shared by all
+									// positions (in ascending order), and as the FIRST user of a freshly
+									// assembled object (what an object caches from its first use differs)
+									for pp := 0; pp <= 2*b+1; pp++ {
+										p := pp
+										useUpd := upd
+										if pp > b {
+											p = pp - b - 1
+											el2, ok2 := listViaP(h.c.events[c:d+1], how, nil, cp)
+											fresh := transportMust(h.c.window(a, b, false), how)
+											if _, err := fresh.Verify(pk); err != nil || !ok2 || fresh.Prepend(el2) != nil {
+												continue
+											}
+											useUpd = fresh
+										}
+										upd := useUpd
 										w := cloneWitness(h.wits[p])
 										rev := h.revokedAt[p]
 										expect := "ok"
